@@ -1710,7 +1710,7 @@ static int ILLmsg (
 	EGLPNUM_TYPENAME_qsformat_error error;
 	char error_desc[256];
 
-	vsprintf (error_desc, format, args);
+	vsnprintf (error_desc, sizeof (error_desc) - 1, format, args);
 	slen = strlen (error_desc);
 	if ((slen > 0) && error_desc[slen - 1] != '\n')
 	{
